@@ -241,11 +241,29 @@ Section Real.
   Definition estimates (w : rworld) (tm : Objective.tmodel N) (cm : Cost.cost_model N) : list (res N) :=
     map (fun gcm => Objective.estimate_cost N cm tm (rw_wf w) gcm (rw_init w)) (rw_gct w).
 
-  Definition rline_M (id : Z) (w : rworld) : string :=
+  (* edge-locality measured: the state after walking the first k edges of a route from the initial state
+     (EdgeTraversal::forward_traversal, previous edge passed on), then the cost of edge e traversed from that state *)
+  Fixpoint walk_state (w : rworld) (tm : Objective.tmodel N) (cm : Cost.cost_model N) (st : list N) (prev : option nat)
+           (r : list nat) (k : nat) : res (list N) :=
+    match k, r with
+    | O, _ => Ok st
+    | S k', e :: r' =>
+        do x <- Objective.edge_step N cm tm Cost.Forward e prev (nth e (rw_len w) zero) st;
+        let '(_, _, st') := x in walk_state w tm cm st' (Some e) r' k'
+    | S _, [] => Ok st
+    end.
+  Definition loc_costs (w : rworld) (tm : Objective.tmodel N) (cm : Cost.cost_model N) (e : nat) (r : list nat)
+             (ks : list nat) : list (res N) :=
+    map (fun k => do st <- walk_state w tm cm (rw_init w) None r k;
+                  do x <- Objective.edge_step N cm tm Cost.Forward e None (nth e (rw_len w) zero) st;
+                  let '(ac, tc, _) := x in Ok (Cost.enforce_strictly_positive N (add ac tc))) ks.
+
+  Definition rline_M (id : Z) (w : rworld) (loc_edge : nat) (loc_route loc_pos : list nat) : string :=
     line "M" id
       (match rw_tm w, rw_cm w with
        | Ok tm, Ok cm => "ec=" ++ show_list show_res_num (edge_costs w tm cm)
                          ++ " est=" ++ show_list show_res_num (estimates w tm cm)
+                         ++ " loc=" ++ show_list show_res_num (loc_costs w tm cm loc_edge loc_route loc_pos)
        | _, _ => "build-error"
        end).
 End Real.
@@ -267,12 +285,25 @@ Definition show_judged (tag : string) (g : graph) (d : dir) (c : nat -> Q) (tol 
   else tag ++ "=" ++ fst r.
 
 (* spec-side per-edge costs are the exact values of the doubles the specification-side cost model produced *)
+(* edge-locality on the implementation: the costs of ONE edge traversed from the states reached after 0, some and all
+   hops of the returned route agree within the relative tolerance *)
+Definition loc_verdict (tol : Q) (l : list Q) : string :=
+  match l with
+  | [] => "loc=OK"
+  | x :: r =>
+      let mx := fold_left (fun a b => if Qle_bool a b then b else a) r x in
+      let mn := fold_left (fun a b => if Qle_bool a b then a else b) r x in
+      if Qle_bool (mx - mn) (tol * mx) then "loc=OK"
+      else "loc=NOT-EDGE-LOCAL(min=" ++ show_micro mn ++ ",max=" ++ show_micro mx ++ ")"
+  end.
+
 Definition rline_S (id : Z) (n : nat) (edges : list (nat * nat)) (costs : list Q) (d : dir) (s t : nat)
-           (dj ast : rroute) (as_claim : bool) : string :=
+           (dj ast : rroute) (as_claim : bool) (loc : list Q) : string :=
   let g := mkGraph n (map (fun p => mkEdge (fst p) (snd p)) edges) in
   let c := fun e => nth e costs 0%Q in
   let tol := (1 # 1000000000)%Q in
   line "S" id (show_judged "dj" g d c tol s t dj ++ " "
-               ++ (if as_claim then show_judged "as" g d c tol s t ast else "as=noclaim")).
+               ++ (if as_claim then show_judged "as" g d c tol s t ast else "as=noclaim")
+               ++ " " ++ loc_verdict tol loc).
 
 End OR.
